@@ -217,6 +217,51 @@ func c18Reconnect(c *Ctx) {
 	}
 }
 
+// c18Thousands: a server file / comma list with thousands of entries (duplicates scattered, host:port forms); one
+// execution each (the shuffle takes its first answer everywhere).
+func c18Thousands(c *Ctx) {
+	var entries []string
+	want := map[string]bool{}
+	for i := 0; i < 3000; i++ {
+		e := fmt.Sprintf("h%04d.example.org", i%2500)
+		if i%7 == 0 {
+			e += fmt.Sprintf(":%d", 2200+i%3)
+		}
+		entries = append(entries, e)
+		want[e] = true
+	}
+	path := WriteScratch("c18/thousands.txt", strings.Join(entries, "\n")+"\n")
+	for _, src := range []string{"file", "comma"} {
+		var got []string
+		res := vrt.Run(vrt.Config{MaxSteps: 50000000, Horizon: time.Hour}, func() {
+			args := DefaultArgs()
+			args.Logger = "none"
+			args.LogLevel = "error"
+			StartEnv(source.Client, &args, nil)
+			arg := path
+			if src == "comma" {
+				arg = strings.Join(entries, ",")
+			}
+			got = discovery.New("", arg, discovery.Shuffle).ServerList()
+		})
+		c.Count("thousands|" + src)
+		seen := map[string]int{}
+		for _, g := range got {
+			seen[g]++
+		}
+		bad := ""
+		for e := range want {
+			if seen[e] != 1 {
+				bad = fmt.Sprintf("entry %q returned %d times", e, seen[e])
+				break
+			}
+		}
+		if res.Fail != nil || len(got) != len(want) || bad != "" {
+			c.Violation("wrong-server-set", fmt.Sprintf("%s with 3000 entries (%d distinct): %d servers returned %s %v", src, len(want), len(got), bad, res.Fail), map[string]string{"source": src})
+		}
+	}
+}
+
 // c18ManyUnreachable: more servers than the client connects to at a time (ConnectionsPerCPU x CPUs), all of them
 // unreachable at the SSH level: every listed entry must still be contacted exactly once and dcat must end.
 func c18ManyUnreachable(c *Ctx) {
@@ -294,7 +339,7 @@ func init() {
 		Level: "model_checking",
 		Rule: "all server lists of length 1..5 (quick) / 1..6 (thorough) over {a, b, c:2222, a.dom} (so all duplicate patterns), given as comma list, as server file (newline-terminated, without final newline, CRLF, reached through a symbolic link and through a chain of two) and through a discovery " +
 			"module with the filters none, /a/, /^c/, /x/, /./; every random number the shuffle draws is an environment choice and ALL answer sequences are explored " +
-			"(complete tree, no bound); oracle: returned multiset == distinct entries matching the filter; plus, end to end, a real dcat over every list of <=3 entries (every entry an in-process server): each distinct server delivers the file exactly once; and a following client whose connections are all dropped re-connects only to the listed host:port entries (real TCP listeners, virtual time); and a dcat over more unreachable servers than it connects to at a time (CPUs-1, +1, +5 entries, one connection per CPU) contacts each exactly once and ends; distinct = distinct (case, returned order) pairs",
+			"(complete tree, no bound); oracle: returned multiset == distinct entries matching the filter; plus, end to end, a real dcat over every list of <=3 entries (every entry an in-process server): each distinct server delivers the file exactly once; and a following client whose connections are all dropped re-connects only to the listed host:port entries (real TCP listeners, virtual time); a server file and a comma list of 3000 entries (2500 distinct); and a dcat over more unreachable servers than it connects to at a time (CPUs-1, +1, +5 entries, one connection per CPU) contacts each exactly once and ends; distinct = distinct (case, returned order) pairs",
 		Assumptions: []string{"math/rand is replaced by an explorer-owned choice; regexp is trusted"},
 		Run: func(c *Ctx) {
 			n := 5
@@ -334,6 +379,7 @@ func init() {
 			if c.Shard == 0 {
 				c18Reconnect(c)
 				c18ManyUnreachable(c)
+				c18Thousands(c)
 			}
 			// end to end: the set of servers a real client actually contacts (host names without port;
 			// the serverless connector gives every entry its own in-process server named after the entry)
